@@ -78,6 +78,10 @@ def negate(e):
     return ast.copy_location(ast.UnaryOp(op=ast.Not(), operand=e), e)
 
 
+_MIRROR = {ast.Eq: ast.Eq, ast.NotEq: ast.NotEq, ast.Lt: ast.Gt,
+           ast.Gt: ast.Lt, ast.LtE: ast.GtE, ast.GtE: ast.LtE}
+
+
 def nnf(e):
     if isinstance(e, ast.UnaryOp) and isinstance(e.op, ast.Not):
         return negate(e.operand)
@@ -85,6 +89,25 @@ def nnf(e):
         return ast.copy_location(
             ast.BoolOp(op=e.op, values=[nnf(v) for v in e.values]), e)
     return e
+
+
+class _ConstRight(ast.NodeTransformer):
+    """`1 == x` -> `x == 1` (a constant operand goes to the right)."""
+
+    def __init__(self):
+        self.count = 0
+
+    def visit_Compare(self, node):
+        self.generic_visit(node)
+        if len(node.ops) == 1 and type(node.ops[0]) in _MIRROR and \
+                isinstance(node.left, ast.Constant) and \
+                not isinstance(node.comparators[0], ast.Constant):
+            self.count += 1
+            return ast.copy_location(ast.Compare(
+                left=node.comparators[0],
+                ops=[_MIRROR[type(node.ops[0])]()],
+                comparators=[node.left]), node)
+        return node
 
 
 def _leaves(body):
@@ -366,7 +389,12 @@ class Canon:
 
     # -------------------------------------------------------------- driver
     def run_function(self, fn):
-        for _ in range(12):
+        cr = _ConstRight()
+        cr.visit(fn)
+        if cr.count:
+            self.counts["T5.constant-right"] = self.counts.get(
+                "T5.constant-right", 0) + cr.count
+        for _ in range(40):
             self.changed = False
             self.usage = _Usage(fn)
             self.aliases(fn)
@@ -525,6 +553,11 @@ class Canon:
         stmts = self._uncache(stmts)
         # empty branches left behind by dropped statements
         cleaned = []
+        if len(stmts) > 1 and any(isinstance(x, ast.Pass) for x in stmts):
+            kept = [x for x in stmts if not isinstance(x, ast.Pass)]
+            if kept:
+                stmts = kept
+                self.did("T6.pass")
         for s in stmts:
             if isinstance(s, ast.If):
                 st_ = _static_truth(s.test)
@@ -1049,6 +1082,13 @@ class Canon:
             s.test = test
             self.did("T5.nnf")
         if chained:
+            # the links of an elif chain keep their order; a link whose body
+            # leaves needs no else
+            if _leaves(s.body) and s.orelse:
+                tail = s.orelse
+                s.orelse = []
+                self.did("T4.flatten-else")
+                return [s] + tail
             return [s]
         body, orelse = s.body, s.orelse
         from_rest = False
